@@ -354,6 +354,25 @@ func init() {
 		},
 		LevelNote: "Decided exactly over the current source (one label obligation per operand): no value handed to a formatting, logging or error-text function anywhere in the library, and no value handed to encoding/json, has a static type from which a field holding key material or a password is reachable the way that sink prints it (fmt: all fields; json: exported fields without json:\"-\"). Bounded stand-in: re-encoded tickets never contain the decrypted session key.",
 	}
+	props["C10"] = &PropDef{
+		Funcs: []string{
+			`(*client.Client).GetCachedTicket`, `(*client.Cache).getEntry`, `(*client.Cache).addEntry`, `(*client.session).update`,
+			`(*client.Client).TGSExchange`, `(*client.Client).ASExchange`, `(*client.Client).TGSREQGenerateAndExchange`, `(*client.Client).ensureValidSession`,
+		},
+		Kinds:           kinds(append([]string{"lock"}, contractKinds...)...),
+		NeedObligations: true,
+		QuickTimeout:    20,
+		Assumptions: []string{
+			"time.Now readings are arbitrary non-decreasing instants; now#1 / now#2 are the two readings GetCachedTicket compares with the entry's start and end time",
+			"ghost records: the start / end time of the cache entry returned by Cache.getEntry, whether a ticket renewal or a session refresh happened",
+			"exchanges with the KDC are the contracts of C09 (replies arbitrary, accepted only if they answer the request)",
+		},
+		NotDecided: []string{
+			"'against any conformant KDC login obtains a TGT and the right service ticket', well-formedness of the requests built by NewASReq / NewTGSReq (options, etypes, lifetimes, pre-authentication) and the auto-renewal goroutine over time: protocol-level histories that per-function contracts do not express; the reply-matching part is C09",
+			"ensureValidSession's 1/6-lifetime rule is not stated as a postcondition (the session it reads is not nameable in the contract language)",
+		},
+		LevelNote: "Proved: a ticket is served from the cache without renewal only if the first clock reading lies after the entry's start time and the second before its end time (the entry being the one read under the cache lock); a renewed TGT overwrites every field of the session with the values of the KDC reply (authtime, endtime, renew-till, ticket, session key, key expiration); AS and TGS referral chains are bounded by the variant 6 - referral, including through TGSREQGenerateAndExchange. The protocol-level clauses are listed as not decided.",
+	}
 	props["C17"] = &PropDef{
 		Funcs: []string{
 			`(*gssapi.WrapToken).Marshal`, `(*gssapi.WrapToken).Unmarshal`, `(*gssapi.WrapToken).computeCheckSum`, `(*gssapi.WrapToken).Verify`,
